@@ -27,12 +27,13 @@ RULE = (
 )
 ASSUMPTIONS = [
     "the table is the one in newdocs/src/user-guide.md; precedence system error > fixed > failures > success ('never masked')",
+    "when --return-code-scheme and mode.return_code_scheme are both given, the explicit argument decides (command line is the most specific configuration layer)",
     "document facts (clean? has failures? fix changes bytes?) come from solo reference executions of each document with the same configuration",
     "outcomes the table does not mention are not judged: documents with pragma errors are kept out of 'success' scenarios, fix runs that change nothing over documents with unfixable failures are not judged, injected OS errors are not used",
 ]
-PROBES = ["cat:success", "cat:no_files", "cat:cmdline", "cat:fixed", "cat:failures", "cat:system", "scheme_by:flag", "scheme_by:set", "scheme_by:json", "scheme_by:yaml", "scheme_by:pyproject", "scheme_by:config-arg", "mixture_error_first", "mixture_error_middle", "mixture_error_last", "mixture_error_with_fixed", "corrupt_config"]
+PROBES = ["cat:success", "cat:no_files", "cat:cmdline", "cat:fixed", "cat:failures", "cat:system", "scheme_by:flag", "scheme_by:set", "scheme_by:json", "scheme_by:yaml", "scheme_by:pyproject", "scheme_by:config-arg", "scheme_by:flag+json", "scheme_by:flag+set", "scheme_by:flag+config-arg", "mixture_error_first", "mixture_error_middle", "mixture_error_last", "mixture_error_with_fixed", "corrupt_config"]
 
-SCHEME_SOURCES = ["absent", "absent", "flag", "flag", "set", "json", "yaml", "pyproject", "config-arg"]
+SCHEME_SOURCES = ["absent", "absent", "flag", "flag", "set", "json", "yaml", "pyproject", "config-arg", "flag+json", "flag+set", "flag+config-arg"]
 
 
 def _scheme_setup(rng):
@@ -41,6 +42,16 @@ def _scheme_setup(rng):
     if source == "absent":
         return "default", source, [], {}
     scheme = rng.choice(["default", "minimal", "minimal"])
+    if source.startswith("flag+"):
+        # the explicit argument and the configuration both name a scheme (often
+        # different ones): the argument is the more specific layer and decides
+        other = rng.choice(["default", "minimal"])
+        flags = ["--return-code-scheme", scheme]
+        if source == "flag+json":
+            return scheme, source, flags, {".pymarkdown": json.dumps({"mode": {"return_code_scheme": other}}).encode()}
+        if source == "flag+set":
+            return scheme, source, flags + ["--set", "mode.return_code_scheme=%s" % other], {}
+        return scheme, source, flags + ["--config", "cfg/settings.json"], {"cfg/settings.json": json.dumps({"mode": {"return_code_scheme": other}}).encode()}
     if source == "flag":
         return scheme, source, ["--return-code-scheme", scheme], {}
     if source == "set":
